@@ -220,6 +220,57 @@ def accept_order_job(arg):
     return rep
 
 
+def lookalike_job(arg):
+    """Two unrelated accepted packages whose names look alike once a dot is read as "any character" (acme.etl, a module
+    of package acme, and the top-level package acme_etl / acmeXetl): both are tracked, in either order of acceptance."""
+    idx, sep, order, edit_side = arg
+    rep = core.Report("C14")
+    rep.evaluations = 1
+    A, B = "la%d" % idx, "la%d%setl" % (idx, sep)
+    dotted = A + ".etl"
+
+    def files(ca, cb):
+        return {
+            A + "/__init__.py": "# pkg\n",
+            A + "/etl.py": "from vp import vlog\nRATE_A = %d\n\n\ndef fa():\n    vlog.hit('fa')\n    return ('fa', RATE_A)\n" % ca,
+            B + "/__init__.py": "# pkg\n",
+            B + "/jobs.py": "from vp import vlog\nRATE_B = %d\n\n\ndef fb():\n    vlog.hit('fb')\n    return ('fb', RATE_B)\n" % cb,
+            B + "/top.py": "import dds\nfrom vp import vlog\nfrom %s import fa\nfrom %s.jobs import fb\n\n\ndef K():\n    vlog.hit('K')\n    return ('K', fa(), fb())\n\n\ndef main():\n    return ('main', dds.keep('/c14/look', K))\n" % (dotted, B),
+        }
+
+    names = [dotted, B] if order == "dotted-first" else [B, dotted]
+    c1 = (3, 5)
+    c2 = (13, 5) if edit_side == "dotted" else (3, 15)
+    case = {"lookalike": True, "idx": idx, "sep": sep, "order": order, "edit": edit_side}
+    with core.Scratch("vp_c14l_") as td:
+        root = os.path.join(td, "code")
+        os.makedirs(root)
+        outs = []
+        for cs in (c1, c2):
+            seg = {"mode": "impl", "root": root, "accept": names, "store": {"kind": "local", "dir": os.path.join(td, "store")},
+                   "steps": [{"write": files(*cs), "how": "import", "modules": [B + ".top"], "entry": {"style": "eval", "module": B + ".top", "func": "main", "args_src": "()"}}]}
+            o = core.fork_call(run_segment, seg, timeout=300)
+            if isinstance(o, core.JobFailed):
+                rep.inconclusive.append("worker: %r" % (o,))
+                return rep
+            outs.append(o["steps"][0])
+    for x, cs in zip(outs, (c1, c2)):
+        if "setup_error" in x:
+            rep.inconclusive.append(x["setup_error"][-300:])
+            return rep
+        rep.count("lookalike_evaluations")
+        want = ("main", ("K", ("fa", cs[0]), ("fb", cs[1])))
+        if x["result"][0] != "ok":
+            rep.violate("accepted %r: evaluation raised %s(%s)" % (names, x["result"][1], x["result"][2][:200]), case, mechanism="accept-lookalike-names")
+            return rep
+        if pickle.loads(x["result"][1]) != want:
+            rep.violate("accepted %r (in this order): after an edit in %s the evaluation returned %s, plain execution gives %r" % (names, dotted if edit_side == "dotted" else B + ".jobs", x["result"][2][:120], want), case,
+                        mechanism="accept-lookalike-names")
+            return rep
+    rep.nontriv(("c14look", sep, order, edit_side))
+    return rep
+
+
 def spellings_job(arg):
     """One variable of an accepted nested module read through several import spellings in one function body: an edit of
     the variable changes the signature (and the value) whatever the number of spellings."""
@@ -386,8 +437,14 @@ def run(tier, seed):
             idx += 1
             jobs.append(("spell", (idx, depth, nspell)))
 
+    for sep in ("_", "x", "0"):
+        for order in ("dotted-first", "dotted-last"):
+            for side in ("dotted", "lookalike"):
+                idx += 1
+                jobs.append(("look", (idx, sep, order, side)))
+
     def dispatch(j):
-        return {"case": case_job, "refused": refused_job, "late": late_accept_job, "order": accept_order_job, "spell": spellings_job}[j[0]](j[1])
+        return {"case": case_job, "refused": refused_job, "late": late_accept_job, "order": accept_order_job, "spell": spellings_job, "look": lookalike_job}[j[0]](j[1])
 
     results = core.fork_map(dispatch, jobs, timeout=900)
     for j, r in zip(jobs, results):
@@ -408,7 +465,9 @@ def run(tier, seed):
 def replay(payload):
     rep = core.Report("C14")
     c = payload["case"]
-    if c.get("spellings"):
+    if c.get("lookalike"):
+        rep.merge(lookalike_job((c["idx"], c["sep"], c["order"], c["edit"])))
+    elif c.get("spellings"):
         rep.merge(spellings_job((c["idx"], c["depth"], c["nspell"])))
     elif c.get("accept_order"):
         rep.merge(accept_order_job((c["idx"], c["depth"], c["order"], c["edit"])))
